@@ -419,9 +419,11 @@ def magnet(metafile: str, version: int = 0) -> str:
 
     web_sources = [""]
     if "url-list" in meta:
-        web_sources = [
-            "&ws=" + quote_plus(urllist) for urllist in meta["url-list"]
-        ]
+        url_list = meta["url-list"]
+        if isinstance(url_list, str):
+            # BEP 19 allows a single url string in place of a list
+            url_list = [url_list]
+        web_sources = ["&ws=" + quote_plus(url) for url in url_list]
 
     web_seed = "".join(web_sources)
 
